@@ -243,6 +243,15 @@ class Source:
                 if depth == 0:
                     break
                 depth -= 1
+                if ch == '}' and depth == 0:
+                    # a block-like expression arm (`match x {..}`, `if c {..} else {..}`) may end without a comma
+                    n = j + 1
+                    while n < span[1] and self.mask[n].isspace():
+                        n += 1
+                    rest = self.mask[n:n + 6]
+                    if not (rest.startswith('else') or rest[:1] in ',.?' or rest[:1] in '+-*/%&|^<>=!'):
+                        j += 1
+                        break
             elif ch == ',' and depth == 0:
                 break
             j += 1
